@@ -11,7 +11,9 @@
 (*                           (<<>> = none, several = client.Compose)       *)
 (*     writer = [t |-> "basic" | "apikey" | "bearer", name, in, u, p]      *)
 (*              basic: u, p; apikey: name, in ("header"|"query"), p = key; *)
-(*              bearer: p = token                                          *)
+(*              bearer: p = token; t = "absent": a nil entry of a Compose   *)
+(*              list (a credential the application did not configure):     *)
+(*              it writes nothing and the other entries are still applied  *)
 (*   authz   : bytes         an Authorization header set by the params     *)
 (*                           writer (<<>> = none; never Basic/Bearer)       *)
 (*   hdrs, query, form : Seq([k, v])  parameters set by the params writer  *)
@@ -36,6 +38,7 @@ CONSTANT Mutant   \* "none" | "formvalue" (the tree as found, D27) | "urlb64" | 
                   \* | "staticbeforeauth" (the client-set query parameters are snapshot before the auth writer ran)
                   \* | "redactsent" (with Debug on the Authorization header redacted for the dump is what Submit sends)
                   \* | "stickydefault" (the default-authentication wrapper is built once and keeps the first default)
+                  \* | "composebreak" (client.Compose stops at its first nil entry instead of skipping it)
                   \* | "authintoop" (the wrapper, with the default of that moment, is stored into the CALLER's operation.AuthInfo)
 
 COLON == 58
@@ -64,9 +67,14 @@ LastMatch(kvs, k, mode) ==
 
 \* createHttpRequest: the default is used iff the operation has no auth of its own; the wrapper
 \* skips it when an Authorization header is already present.
+\* client.Compose: every non-nil writer of the list is applied, in order; nil entries are skipped
+RECURSIVE UpToAbsent(_)
+UpToAbsent(ws) == IF ws = <<>> \/ Head(ws).t = "absent" THEN <<>> ELSE <<Head(ws)>> \o UpToAbsent(Tail(ws))
+Composed(ws) == IF Mutant = "composebreak" THEN UpToAbsent(ws) ELSE SelectSeq(ws, LAMBDA w : w.t # "absent")
+
 EffectiveWriters(in) ==
-  IF in.op # <<>> THEN in.op
-  ELSE IF in.def # <<>> /\ (in.authz = <<>> \/ Mutant = "defaultalways") THEN in.def
+  IF in.op # <<>> THEN Composed(in.op)
+  ELSE IF in.def # <<>> /\ (in.authz = <<>> \/ Mutant = "defaultalways") THEN Composed(in.def)
   ELSE <<>>
 
 \* headers / query after the params writer and then the auth writers ran (SetHeaderParam and
